@@ -222,6 +222,24 @@ func checkC14(r *Run, pre, post *Snap, st StepObs, broken map[int]bool) (string,
 	if new(big.Rat).SetInt(paid).Cmp(lim) > 0 {
 		return fail("blobbers-overpaid", fmt.Sprintf("blobbers received %s > challenge pool %d + cancellation charge %s", paid, pa.CP, cc.FloatString(0)))
 	}
+	// pass payments: a blobber is paid at most its remaining value times the served share of the rest of the period
+	// (time since its last settled challenge / time from that challenge to the expiration - a ratio of durations,
+	// whatever the time unit is), plus its share of the cancellation charge
+	served := new(big.Rat)
+	for _, d := range pa.BAs {
+		v := new(big.Rat).SetInt(new(big.Int).SetUint64(d.CPIV))
+		if d.LF > 0 && st.Now > d.LF && pa.Exp > d.LF && st.Now < pa.Exp {
+			v.Mul(v, big.NewRat(st.Now-d.LF, pa.Exp-d.LF))
+		} else if d.LF == 0 || st.Now <= d.LF {
+			v.SetInt64(0)
+		}
+		served.Add(served, v)
+	}
+	lim2 := new(big.Rat).Add(cc, served)
+	lim2.Add(lim2, big.NewRat(int64(len(pa.BAs))+1, 1))
+	if new(big.Rat).SetInt(paid).Cmp(lim2) > 0 {
+		return fail("blobbers-paid-beyond-served-time", fmt.Sprintf("blobbers received %s > value of the served time %s + cancellation charge %s", paid, served.FloatString(0), cc.FloatString(0)))
+	}
 	if post.Bal[pa.Owner]-pre.Bal[pa.Owner] != refund {
 		return fail("owner-not-credited", fmt.Sprintf("owner balance moved by %d, refund %d", post.Bal[pa.Owner]-pre.Bal[pa.Owner], refund))
 	}
